@@ -79,6 +79,46 @@ package predicates
 //@   ensures [noFilterStage] !result
 //@ end
 
+// Which config maps a pod requires (volumes that are mounted, env / envFrom references, minus optional ones and the
+// shared-GPU config map) is computed by getAllRequiredConfigMapNames from the pod spec alone: nested loops over
+// containers / volumes with a closure appending to a captured slice and x/exp/maps.Keys (order unspecified). Its
+// answer is NAMED: cmReqCount(pod) names, cmReqAt(pod, i) the i-th of them (a function of the pod object; the pod spec
+// is immutable during a scheduling cycle).
+//@ declare cmReqCount(pod *v1.Pod) int
+//@ declare cmReqAt(pod *v1.Pod, i int) string
+//@ func getAllRequiredConfigMapNames
+//@   props C04
+//@   trusted
+//@   note naming device + read-only frame: the list of required config-map names of a pod is named by cmReqCount / cmReqAt; the body only reads the pod spec (closure over a captured slice, maps.Keys: outside what is worth modelling here)
+//@   pure
+//@   ensures len(result) == cmReqCount(pod) && cmReqCount(pod) >= 0
+//@   ensures forall i int :: 0 <= i && i < len(result) ==> result[i] == cmReqAt(pod, i)
+//@ end
+
+// the predicate is consulted exactly for the pods that require some config map
+//@ func (*ConfigMapPredicate).isPreFilterRequired
+//@   props C04
+//@   pure
+//@   ensures [requiredIffPodNeedsConfigMaps] result == (cmReqCount(pod) > 0)
+//@ end
+
+//@ func k8s.io/kube-scheduler/framework.NewStatus
+//@   fresh
+//@   note upstream constructor: returns a new Status object
+//@ end
+
+// a pod passes iff every config map it requires exists (in its own namespace) in the snapshot
+//@ func (*ConfigMapPredicate).PreFilter
+//@   props C04
+//@   requires cmp != nil && pod != nil
+//@   loop 1
+//@     invariant 0 - 1 <= rangeindex && rangeindex < len(requiredConfigMapNames)
+//@     invariant (len(missingConfigMaps) == 0) == (forall i int :: 0 <= i && i <= rangeindex ==> cmKnown(cmp, pod.Namespace, requiredConfigMapNames[i]))
+//@     decreases len(requiredConfigMapNames) - rangeindex
+//@   ensures [passesIffAllRequiredConfigMapsExist] (result1 == nil) == (forall i int :: 0 <= i && i < cmReqCount(pod) ==> cmKnown(cmp, pod.Namespace, cmReqAt(pod, i)))
+//@   ensures [noNodeRestriction] result0 == nil
+//@ end
+
 // (2) MaxNodePoolResources predicate (maxNodeResources.go): a pod that asks for more than the largest node offers is not
 // placed. What keeps this predicate from rejecting a pod that DOES fit some node (C05 "filters ... must only prune
 // hopeless cases") is that maxResources dominates every node's allocatable resources, component by component.
@@ -89,15 +129,44 @@ package predicates
 //@   assume forall k in nodesMap :: nodesMap[k] != nil && nodesMap[k].Allocatable != nil
 //@   assume resource_info.claimsNonNil(resourceClaims)
 //@   note assumed data invariants of the snapshot (no nil node, every node has its Allocatable resource, no nil claim): the caller NewSessionPredicates reads them from ssn.ClusterInfo right after a cache call, nothing carries them there
+//@   assume forall k in nodesMap :: allocated(nodesMap[k].Allocatable) && allocated(nodesMap[k].Allocatable.scalarResources)
+//@   note heap closedness: the resource objects reachable from the node map exist before the call
 //@   fresh
 //@   loop 1
 //@     invariant predicate != nil && fresh(predicate) && predicate.maxResources != nil && fresh(predicate.maxResources)
 //@     invariant predicate.maxResources.scalarResources == nil || fresh(predicate.maxResources.scalarResources)
+//@     invariant forall r *resource_info.Resource :: old(allocated(r)) ==> r.gpus == old(r.gpus)
+//@     invariant forall b *resource_info.BaseResource :: old(allocated(b)) ==> b.milliCpu == old(b.milliCpu) && b.memory == old(b.memory) && b.scalarResources == old(b.scalarResources)
+//@     invariant forall m map[v1.ResourceName]int64, k v1.ResourceName :: old(allocated(m)) ==> (k in m) == old(k in m) && m[k] == old(m[k])
 //@     invariant forall k in visited :: k in nodesMap
-//@     invariant forall k in nodesMap :: nodesMap[k] != nil && nodesMap[k].Allocatable != nil && !fresh(nodesMap[k].Allocatable) && (nodesMap[k].Allocatable.scalarResources == nil || !fresh(nodesMap[k].Allocatable.scalarResources))
 //@     invariant forall k in visited :: dominates(predicate.maxResources, nodesMap[k].Allocatable)
 //@   ensures [nonNil] result != nil && result.maxResources != nil
 //@   ensures [maxDominatesEveryNode] forall k in nodesMap :: dominates(result.maxResources, nodesMap[k].Allocatable)
+//@ end
+
+// a pod is rejected iff some component of its request exceeds the largest node: GPUs (device-plugin + DRA), CPU, memory,
+// or a scalar resource that no node offers in that amount. podInfo is the function's own local (pod_info.NewTaskInfo of
+// the pod), hence lemmas.
+//@ func (*MaxNodeResourcesPredicate).buildUnschedulableMessage
+//@   props C04
+//@   trusted
+//@   note message formatting only (strings.Builder, fmt.Sprintf, humanize, ResourceRequirements.DetailedString): library calls outside the subset; assumed read-only
+//@   pure
+//@ end
+//@ define scalarsWithin(req *resource_info.ResourceRequirements, m *resource_info.Resource) bool = forall k in req.scalarResources :: k in m.scalarResources && req.scalarResources[k] <= m.scalarResources[k]
+//@ func (*MaxNodeResourcesPredicate).PreFilter
+//@   props C04
+//@   requires mnr != nil && pod != nil && mnr.maxResources != nil
+//@   assume mnr.podsToClaimsMap != nil && resource_info.claimMapNonNil(mnr.resourceClaimsMap) && resource_info.podClaimsNonNil(mnr.podsToClaimsMap)
+//@   note assumed: the DRA claim indexes built by NewMaxNodeResourcesPredicate (ResourceClaimSliceToMap / CalcClaimsToPodsBaseMap [non-nil entries]) are intact
+//@   modifies *
+//@   note modifies *: GetDraPodClaims caches into the predicate's own pod->claims index; pod_info.NewTaskInfo builds a new PodInfo
+//@   nopanic off
+//@   loop 1
+//@     invariant forall k in visited :: k in mnr.maxResources.scalarResources && podInfo.ResReq.scalarResources[k] <= mnr.maxResources.scalarResources[k]
+//@   lemma [acceptedOnlyIfWithinLargestNode] result1 == nil ==> podGpuResources <= mnr.maxResources.gpus && podInfo.ResReq.milliCpu <= mnr.maxResources.milliCpu && podInfo.ResReq.memory <= mnr.maxResources.memory && scalarsWithin(podInfo.ResReq, mnr.maxResources)
+//@   lemma [rejectedOnlyIfOversized] result1 != nil ==> podGpuResources > mnr.maxResources.gpus || podInfo.ResReq.milliCpu > mnr.maxResources.milliCpu || podInfo.ResReq.memory > mnr.maxResources.memory || !scalarsWithin(podInfo.ResReq, mnr.maxResources)
+//@   ensures [noNodeRestriction] result0 == nil
 //@ end
 
 //@ func (*MaxNodeResourcesPredicate).isPreFilterRequired
@@ -117,6 +186,19 @@ package predicates
 //@   trust [namesWrappedPlugin] result != nil && k8s_internal.filterOf(result, plugin)
 //@   nopanic off
 //@   note naming device + nopanic off: the closure returned wraps FitPredicateConverter(ssn, plugin.(*VolumeBinding)); the type assertion is the caller's matter (NewSessionPredicates passes the object the cache constructed as VolumeBinding)
+//@ end
+
+// the wrapper hands the upstream verdict through unchanged, except that - only when CSI storage scheduling is switched
+// off for capacity (ignoreInsufficientResources) - an upstream ERROR may be turned into acceptance (the code compares
+// the message with ErrReasonNotEnoughSpace); it never rejects what the upstream filter accepts
+//@ func NewVolumeBindingFilter$1
+//@   props C04
+//@   pure
+//@   nopanic off
+//@   note nopanic off: filterFunc is the non-nil closure FitPredicateConverter returned (captured variable, not visible as such here)
+//@   ensures [verdictHandedThrough] !ignoreInsufficientResources ==> result0 == k8s_internal.filterFits(filterFunc, pod, nodeInfo) && (result2 != nil) == k8s_internal.filterFails(filterFunc, pod, nodeInfo)
+//@   ensures [noErrorStaysUntouched] !k8s_internal.filterFails(filterFunc, pod, nodeInfo) ==> result0 == k8s_internal.filterFits(filterFunc, pod, nodeInfo) && result2 == nil
+//@   ensures [acceptanceNeedsUpstreamOrSwitch] result0 ==> k8s_internal.filterFits(filterFunc, pod, nodeInfo) || (ignoreInsufficientResources && k8s_internal.filterFails(filterFunc, pod, nodeInfo))
 //@ end
 
 //@ define alwaysReq(f k8s_internal.FitPredicateRequired) bool = forall p *v1.Pod :: k8s_internal.required(f, p)
